@@ -376,8 +376,9 @@ pub fn write_replay(dir: &str, name: &str, j: &J) -> Result<String, String> {
     Ok(path)
 }
 
-/// Re-executes a replay file; returns process exit code.
-pub fn replay<S: Scenario>(s: &S, j: &J) -> i32 {
+/// Re-executes a replay file; returns process exit code. The case runs on its own thread under the
+/// same 60 s watchdog as a batch, so that a `hang` replay reproduces as a hang instead of never returning.
+pub fn replay<S: Scenario>(s: S, j: &J) -> i32 {
     let class = j["class"].as_str().unwrap_or("").to_string();
     let case = match s.from_json(&j["case"]) {
         Ok(c) => c,
@@ -386,23 +387,49 @@ pub fn replay<S: Scenario>(s: &S, j: &J) -> i32 {
             return 2;
         }
     };
-    let mut st = Stats::default();
-    let out = s.exec(&case, &mut st);
-    if out.violations.is_empty() {
-        println!("REPLAY property={} result=no-violation expected-class={}", s.id(), class);
+    let id = s.id();
+    let (tx, rx) = std::sync::mpsc::channel();
+    let th = std::thread::Builder::new().stack_size(256 << 20).spawn(move || {
+        let mut st = Stats::default();
+        let out = s.exec(&case, &mut st);
+        let _ = tx.send(out.violations.into_iter().map(|(v, _)| v).collect::<Vec<Viol>>());
+    });
+    if th.is_err() {
+        eprintln!("HARNESS-ERROR: cannot spawn replay thread");
+        return 2;
+    }
+    let viols = match rx.recv_timeout(std::time::Duration::from_secs(60)) {
+        Ok(v) => v,
+        Err(std::sync::mpsc::RecvTimeoutError::Timeout) => {
+            println!("REPLAY property={id} class=hang detail=no result after 60 s");
+            if class == "hang" {
+                println!("REPLAY-REPRODUCED property={id} class=hang");
+            } else {
+                println!("REPLAY-DIFFERENT property={id} expected-class={class}");
+            }
+            return 1;
+        }
+        Err(_) => {
+            // the replay thread died without reporting: a panic outside a guarded call
+            println!("REPLAY property={id} class=harness detail=replay thread ended without a result");
+            return 2;
+        }
+    };
+    if viols.is_empty() {
+        println!("REPLAY property={id} result=no-violation expected-class={class}");
         return 0;
     }
     let mut same = false;
-    for (v, _) in &out.violations {
-        println!("REPLAY property={} class={} detail={}", s.id(), v.class, v.detail);
+    for v in &viols {
+        println!("REPLAY property={id} class={} detail={}", v.class, v.detail);
         if v.class == class {
             same = true;
         }
     }
     if same {
-        println!("REPLAY-REPRODUCED property={} class={}", s.id(), class);
+        println!("REPLAY-REPRODUCED property={id} class={class}");
     } else {
-        println!("REPLAY-DIFFERENT property={} expected-class={}", s.id(), class);
+        println!("REPLAY-DIFFERENT property={id} expected-class={class}");
     }
     1
 }
